@@ -161,4 +161,23 @@ def instances(tier):
     out.append(C18.inst_tree((4,), 0, {0: 1}, False))
     out.append(C18.inst_arg_nd(((2,), (1, 1, 1)), "argmin", two_level=True))
     out.append(C18.inst_arg_nd(((2,), (1, 1, 1)), "argmax", two_level=True))
+    # materialization history of a collection that is then assigned into (same instance as C11), and rewrites whose result
+    # must not depend on array.optimize-graph (catalogue programs materialized with the setting on and off)
+    from . import C11, catalog
+
+    out.append(C11.inst_mask_assign_history())
+
+    def body(E, w, prog):
+        from symx.sarr import same_array
+
+        vals = {}
+        for stage in ("materialized", "materialized_off"):
+            m = catalog.stages(E, w, prog.node, {stage})[stage]
+            whole, dsk, r = catalog.run_tree(E, m, prog.node.chunks, stage)
+            vals[stage] = whole
+            same_array(E, whole, prog.ref, label=f"{stage}-values", skolem=f"p{stage[-1]}")
+        same_array(E, vals["materialized"], vals["materialized_off"], label="optimize-graph-on-equals-off", skolem="pq")
+
+    keep = ("(x2x2+w[one block])[:,[1,0,0]]", "(x2+y2)[[1,2,0]]", "transpose(x2x2)[[1,0]]", "x2+y3(unaligned)", "rechunk(x2+y2)")
+    out += catalog.make_instances(tier, "C09", body, "optimizer rewrites under array.optimize-graph on/off", select=lambda n: n in keep)
     return out
